@@ -15,6 +15,7 @@ inductive Obs
   | req (h c : Nat) (written : Bool)   -- Request returned counter c; a datagram was written or not
   | resp (ref : Nat)                   -- a response referencing ref arrived
   | other                              -- any send that is not a request
+  deriving DecidableEq, Repr
 
 /-- one monitor step: `none` = the observation contradicts the property -/
 def step (u : U) : Obs → Option U
